@@ -100,6 +100,22 @@ def translate(path):
                 tg = n.targets if isinstance(n, ast.Assign) else [n.target]
                 if any(isinstance(x, ast.Name) and x.id == "member_names" for t in tg for x in ast.walk(t)):
                     arg_check.append(src(n))
+    # _get_members: every statement that writes the per-class cache (the model: one entry per class, keyed by the class's own
+    # name, holding a fresh list of its members and its ancestors')
+    cache_writes = []
+    if "_get_members" in methods:
+        nodes = sorted((n for n in ast.walk(methods["_get_members"]) if isinstance(n, (ast.Assign, ast.AugAssign, ast.AnnAssign, ast.Delete))),
+                       key=lambda n: (n.lineno, n.col_offset))
+        for n in nodes:
+            tg = n.targets if isinstance(n, (ast.Assign, ast.Delete)) else [n.target]
+            if any(isinstance(x, ast.Attribute) and x.attr.startswith("__all_members") for t in tg for x in ast.walk(t)):
+                cache_writes.append(src(n))
+        for n in ast.walk(methods["_get_members"]):
+            if isinstance(n, ast.Call) and isinstance(n.func, ast.Attribute) and any(
+                    isinstance(x, ast.Attribute) and x.attr.startswith("__all_members") for x in ast.walk(n.func.value)) \
+                    and n.func.attr in ("append", "extend", "update", "setdefault", "insert", "__setitem__"):
+                cache_writes.append("call: " + src(n))
+    res["cache_writes"] = cache_writes
     res["arg_check"] = arg_check
     res["hint_tests"] = tests
     res["add_loops"] = loops
